@@ -108,17 +108,29 @@ Fixpoint check_reqs (routes : list route) (t : option table) (names : list bytes
   end.
 
 (** [reg]: [None] = every Handle returned, [Some i] = Handle of route i panicked *)
+(** the implementation rejects a route the specification would accept (before any route the specification rejects):
+    the property quantifies over SUCCESSFULLY registered routes, an implementation may be stricter *)
+Definition rejects_more (spec impl : option nat) : bool :=
+  match impl, spec with
+  | Some i, None => true
+  | Some i, Some j => Nat.ltb i j
+  | None, _ => false
+  end.
+
+(** third component: [true] = nothing to judge, the implementation rejected more than the specification demands *)
 Definition check_case (routes : list route) (reg : option nat) (names : list bytes) (qs : list req)
-  : verdict * nat :=
-  if opt_nat_eqb (spec_first_rejected [] routes 0) reg then
+  : verdict * nat * bool :=
+  let spec := spec_first_rejected [] routes 0 in
+  if opt_nat_eqb spec reg then
     if opt_nat_eqb (model_first_rejected empty_table routes 0) reg then
-      check_reqs routes (register_all routes) names qs 0 None
+      (check_reqs routes (register_all routes) names qs 0 None, false)
     else
       match check_reqs routes (register_all routes) names qs 0 None with
-      | (VSpecFail, i) => (VSpecFail, i)
-      | _ => (VMismatch, 0)
+      | (VSpecFail, i) => (VSpecFail, i, false)
+      | _ => (VMismatch, 0, false)
       end
-  else (VSpecFail, 0).
+  else if rejects_more spec reg then (VOk, 0, true)
+  else (VSpecFail, 0, false).          (* it ACCEPTED a duplicate / a bad :name / an unknown method *)
 
-Definition verdict_ok (v : verdict * nat) : bool :=
-  match fst v with VOk => true | _ => false end.
+Definition verdict_ok (v : verdict * nat * bool) : bool :=
+  match fst (fst v) with VOk => true | _ => false end.
